@@ -259,11 +259,15 @@ fn build_msg<G: Glue>(storage: &dyn Storage, msg: &Msg) -> StdResult<Built<G::C>
                     args.as_slice(),
                     funds.clone(),
                 )?;
+                let slot_raw = match (form, slot) {
+                    (3.., Some(s)) => storage.get(s.as_bytes()).map(|b| bb::bytes_text(&b)).unwrap_or(Value::Null),
+                    _ => Value::Null,
+                };
                 bb::build(
                     G::CID,
                     "executor",
                     json!({"peer": p, "ty": ty, "method": method, "args": bb::bytes_text(args.as_slice()),
-                           "funds": j(funds), "form": form, "slot": slot}),
+                           "funds": j(funds), "form": form, "slot": slot, "slot_raw": slot_raw}),
                     j(&out),
                 );
                 Built::Wasm(out)
@@ -474,11 +478,12 @@ pub fn run<G: Glue>(
             }
             Step::Resave { slot, to, ty } => {
                 let f = peer(ty)?;
+                let before = deps.storage.get(slot.as_bytes()).map(|b| bb::bytes_text(&b)).unwrap_or(Value::Null);
                 let a = (f.resave_remote)(deps.storage, slot, to)?;
                 bb::build(
                     G::CID,
                     "remote_resave",
-                    json!({"slot": slot, "to": to, "ty": ty, "loaded": a.as_str()}),
+                    json!({"slot": slot, "to": to, "ty": ty, "loaded": a.as_str(), "raw": before}),
                     bb::bytes_text(&deps.storage.get(to.as_bytes()).unwrap_or_default()),
                 );
             }
